@@ -80,6 +80,8 @@ def _common(t, name, extra_args, slack, conf_type, model_kind, has_U, model_clas
     made = []
     dataset, ds_in, ds_out = install(t, made)
     eps, delta, nv = t.inp("epsilon", InReal("eps")), t.inp("delta", InReal("delta")), t.inp("noise_var", InReal("nv"))
+    # the documented domain of the configuration (a constructor may reject anything outside it)
+    t.assume(V.R(eps) > 0, V.R(delta) > 0, V.R(delta) < 1, V.R(nv) > 0, cc > 0, bs >= 1)
     order = t.inp("order", InOrder("o", 3, M)) if with_order else None
     O = t.inputs.get("order")
     ustar = L.fresh_array("ustar", (M,))
@@ -207,8 +209,10 @@ def _vogp_ad_ctor(t):
     made = []
     install(t, made)
     eps, delta, nv = t.inp("epsilon", InReal("eps")), t.inp("delta", InReal("delta")), t.inp("noise_var", InReal("nv"))
+    t.assume(V.R(eps) > 0, V.R(delta) > 0, V.R(delta) < 1, V.R(nv) > 0, cc > 0)
     order = t.inp("order", InOrder("o", 3, M))
     dmax = z3.Int("depth_max")
+    t.assume(dmax >= 1)
     problem = SObj("ContinuousProblemStub", {"depth_max": dmax, "in_dim": D, "out_dim": M})
     ustar = L.fresh_array("ustar", (M,))
     d1 = z3.Real("d1")
